@@ -151,7 +151,7 @@ impl Check for Access {
         if tier == Tier::Quick {
             3000
         } else {
-            60000
+            40000
         }
     }
     fn components(&self) -> serde_json::Value {
